@@ -47,7 +47,7 @@ func condStr(c Cond) string {
 func HasGuard(b *ssa.BasicBlock, want Cond) bool {
 	w, sense := NormCond(want.Canon, want.Sense)
 	for _, g := range GuardsOf(b) {
-		if g.Sense == sense && Glob(w, g.Canon) {
+		if g.Sense == sense && MatchCond(w, g.Canon) {
 			return true
 		}
 	}
@@ -91,36 +91,94 @@ func EffectsOf(fn *ssa.Function, spec string) []Effect {
 	return out
 }
 
-// EffectExists (K6/K2): a call matching spec exists whose canonical argument
-// argIdx matches argGlob and whose guard set contains all required decisions
-// (and none of the forbidden ones). Returns the number of matches.
+// Eff describes an effect obligation: a call matching Spec exists whose
+// canonical argument Arg matches Glob and whose guard set contains all of Req
+// and none of Forbid; with Exact, the guard set filtered by Keep equals Req.
+type Eff struct {
+	Spec   string
+	Arg    int
+	Glob   string
+	Req    []Cond
+	Forbid []Cond
+	Exact  bool
+	Keep   func(Cond) bool
+	Why    string
+	Rule   string
+}
+
+// EffectExists (K6/K2) — see Eff.
 func (c *Ctx) EffectExists(fn *ssa.Function, spec string, argIdx int, argGlob string, required []Cond, why string) int {
+	return c.Effect(fn, Eff{Spec: spec, Arg: argIdx, Glob: argGlob, Req: required, Why: why})
+}
+
+func (c *Ctx) Effect(fn *ssa.Function, e0 Eff) int {
 	if fn == nil {
 		return 0
 	}
+	rule := e0.Rule
+	if rule == "" {
+		rule = "K6"
+	}
 	fnName := load.QualName(fn)
-	what := fmt.Sprintf("effect %s(arg%d~`%s`)", spec, argIdx, argGlob)
-	if len(required) > 0 {
-		what += " under " + condsAnd(required)
+	what := fmt.Sprintf("effect %s(arg%d~`%s`)", e0.Spec, e0.Arg, e0.Glob)
+	if len(e0.Req) > 0 {
+		what += " under " + condsAnd(e0.Req)
+	}
+	if e0.Exact {
+		what += " and under nothing else"
+	}
+	if len(e0.Forbid) > 0 {
+		what += " not under " + condsAnd(e0.Forbid)
 	}
 	n := 0
 	var near []string
 	site := "-"
-	for _, e := range EffectsOf(fn, spec) {
-		if argIdx >= len(e.Args) || !Glob(argGlob, e.Args[argIdx]) {
-			if argIdx < len(e.Args) {
-				near = append(near, "arg: "+short(e.Args[argIdx], 100))
+	for _, e := range EffectsOf(fn, e0.Spec) {
+		var arg string
+		if e0.Arg == -1 {
+			if !e.Call.Common().IsInvoke() {
+				continue
 			}
+			arg = CanonD(e.Call.Common().Value, 9)
+		} else if e0.Arg < len(e.Args) {
+			arg = e.Args[e0.Arg]
+		} else {
+			continue
+		}
+		if !Glob(e0.Glob, arg) {
+			near = append(near, "arg: "+short(arg, 100))
 			continue
 		}
 		ok := true
-		for _, r := range required {
+		for _, r := range e0.Req {
 			if !HasGuard(e.Call.Block(), r) {
 				ok = false
 			}
 		}
+		for _, r := range e0.Forbid {
+			if HasGuard(e.Call.Block(), r) {
+				ok = false
+			}
+		}
+		if ok && e0.Exact {
+			for _, g := range e.Guards {
+				if e0.Keep != nil && !e0.Keep(g) {
+					continue
+				}
+				matched := false
+				for _, r := range e0.Req {
+					w, sense := NormCond(r.Canon, r.Sense)
+					if g.Sense == sense && MatchCond(w, g.Canon) {
+						matched = true
+					}
+				}
+				if !matched {
+					ok = false
+				}
+			}
+		}
 		if !ok {
-			near = append(near, "guards: "+e.GuardString(nil))
+			near = append(near, "guards: "+e.GuardString(e0.Keep))
 			continue
 		}
 		n++
@@ -128,9 +186,9 @@ func (c *Ctx) EffectExists(fn *ssa.Function, spec string, argIdx int, argGlob st
 	}
 	c.Sites += n
 	if n == 0 {
-		c.Fail("K6", fnName, what, "-", "no such effect ("+why+"); nearest candidates: "+short(strings.Join(near, " ; "), 400))
+		c.Fail(rule, fnName, what, "-", "no such effect ("+e0.Why+"); nearest candidates: "+short(strings.Join(near, " ; "), 600))
 	} else {
-		c.OK("K6", fnName, what, site, why)
+		c.OK(rule, fnName, what, site, e0.Why)
 	}
 	return n
 }
@@ -278,11 +336,16 @@ func (c *Ctx) SameValueArgs(fn *ssa.Function, specs map[string]int, what, why st
 		}
 		for _, ci := range sites {
 			args := ci.Common().Args
-			if idx >= len(args) {
+			var av ssa.Value
+			if idx == -1 && ci.Common().IsInvoke() {
+				av = ci.Common().Value
+			} else if idx >= 0 && idx < len(args) {
+				av = args[idx]
+			} else {
 				continue
 			}
 			n++
-			v := Resolve(args[idx])
+			v := Resolve(av)
 			if ref == nil {
 				ref, refSite = v, ci
 				continue
